@@ -18,6 +18,10 @@ pub struct Sim {
     pub cores: usize,
     pub policy: String,
     pub hooks: u32,
+    /// explicit scheduler decision list (task chosen at each switch point / PRNG draw); when
+    /// present it replaces the policy, and past its end the lowest runnable task is chosen
+    #[serde(default, skip_serializing_if = "Option::is_none")]
+    pub decisions: Option<Vec<u64>>,
 }
 impl Sim {
     pub fn plain(seed: u64) -> Sim {
@@ -26,6 +30,7 @@ impl Sim {
             cores: 1,
             policy: "uniform".into(),
             hooks: 0,
+            decisions: None,
         }
     }
     pub fn varied(rng: &mut Rng) -> Sim {
@@ -35,6 +40,7 @@ impl Sim {
             cores: p.cores,
             policy: p.policy,
             hooks: p.hooks,
+            decisions: None,
         }
     }
     pub fn proc(&self, argv: Vec<String>) -> Proc {
@@ -45,7 +51,7 @@ impl Sim {
             policy: self.policy.clone(),
             hooks: self.hooks,
             fsize: None,
-            decisions: None,
+            decisions: self.decisions.clone(),
         }
     }
 }
@@ -134,6 +140,10 @@ pub struct SchedCase {
     pub variants: Vec<(usize, Sim)>,
 }
 
+thread_local! {
+    static LAST_RECORDED: std::cell::RefCell<Option<Vec<u64>>> = const { std::cell::RefCell::new(None) };
+}
+
 pub struct SchedWorkload {
     /// restrict to some command kinds (None = all)
     pub only: Option<Vec<&'static str>>,
@@ -201,6 +211,12 @@ pub fn indel_records_weak(vcf: &[u8]) -> Vec<(usize, Vec<String>)> {
 }
 
 impl SchedWorkload {
+    /// execute with recording on and return the decision list of the last simulated process
+    fn execute_recording(&self, c: &SchedCase, ctx: &mut Ctx) -> Option<Vec<u64>> {
+        LAST_RECORDED.with(|l| *l.borrow_mut() = None);
+        let _ = self.execute(c, ctx);
+        LAST_RECORDED.with(|l| l.borrow_mut().take())
+    }
     fn gen_variants(rng: &mut Rng, n: usize, max_threads: usize) -> Vec<(usize, Sim)> {
         (0..n)
             .map(|i| {
@@ -500,6 +516,9 @@ impl Workload for SchedWorkload {
         for (vi, (threads, sim)) in c.variants.iter().enumerate() {
             let tag = format!("v{vi}");
             let r = run_proc(dir, &sim.proc(cmdline(*threads, &tag)), &mut log)?;
+            if let Some(d) = &r.recorded {
+                LAST_RECORDED.with(|l| *l.borrow_mut() = Some(d.clone()));
+            }
             if let Some(s) = &r.stats {
                 if s.multi_steps > 0 || sim.seed != ref_sim.seed {
                     out.nontrivial = true;
@@ -650,6 +669,48 @@ impl Workload for SchedWorkload {
             }
         }
         v
+    }
+
+    /// schedule minimisation: replace the failing variant's (seed, policy) by its recorded decision
+    /// list and cut that list to the shortest prefix that still fails the same way
+    fn refine(&self, c: &SchedCase, signature: &str) -> SchedCase {
+        if c.variants.len() != 1 {
+            return c.clone();
+        }
+        let fails = |cand: &SchedCase| -> bool {
+            let mut ctx = Ctx::new();
+            matches!(self.execute(cand, &mut ctx), Ok(Outcome { violation: Some((ref s, _)), .. }) if s == signature)
+        };
+        // record
+        std::env::set_var("SKASIM_RECORD_ALL", "1");
+        let mut ctx = Ctx::new();
+        let rec = self.execute_recording(c, &mut ctx);
+        std::env::remove_var("SKASIM_RECORD_ALL");
+        let Some(full) = rec else { return c.clone() };
+        let with = |d: Vec<u64>| {
+            let mut x = c.clone();
+            x.variants[0].1.decisions = Some(d);
+            x
+        };
+        if !fails(&with(full.clone())) {
+            return c.clone();
+        }
+        // shortest failing prefix by bisection (failure need not be monotone: verify the result)
+        let (mut lo, mut hi) = (0usize, full.len());
+        while lo < hi {
+            let mid = (lo + hi) / 2;
+            if fails(&with(full[..mid].to_vec())) {
+                hi = mid;
+            } else {
+                lo = mid + 1;
+            }
+        }
+        let best = with(full[..hi].to_vec());
+        if fails(&best) {
+            best
+        } else {
+            with(full)
+        }
     }
 
     fn sample_view(&self, c: &SchedCase) -> Value {
